@@ -136,14 +136,18 @@ def main():
                         except subprocess.TimeoutExpired:
                             rc, out = 1, "VIOLATION property=%s (check timed out)" % c
                         lines = [l.strip()[:300] for l in out.splitlines() if l.startswith("VIOLATION") or l.startswith("  ")]
-                        res[c] = {"rc": rc, "caught": rc != 0 and ("VIOLATION property=%s" % c) in out, "lines": lines[:3]}
+                        crashed = (" tier=" not in out)      # no summary line: the check itself died (traceback, kill)
+                        if crashed:
+                            lines = ["CHECK CRASHED: " + " | ".join(out.strip().splitlines()[-3:])[:280]] + lines
+                        res[c] = {"rc": rc, "caught": (not crashed) and rc != 0 and ("VIOLATION property=%s" % c) in out,
+                                  "crashed": crashed, "lines": lines[:3]}
                 finally:
                     sh("git -C %s checkout -- . && git -C %s clean -fdq" % (repo, repo))
                     sh("rm -f %s/replays/*.json" % ver)
                 with lock:
                     results[n] = res
                     own = meta["property"]
-                    print("%s: %s (%.0fs)" % (n, " ".join("%s=%s" % (c, "caught" if r["caught"] else "NOT-CAUGHT") for c, r in res.items()),
+                    print("%s: %s (%.0fs)" % (n, " ".join("%s=%s" % (c, "CHECK-CRASHED" if r.get("crashed") else "caught" if r["caught"] else "NOT-CAUGHT") for c, r in res.items()),
                                               time.time() - t0), flush=True)
                     if os.environ.get("PAR_VERBOSE"):
                         for c, r in res.items():
